@@ -13,31 +13,31 @@ Lemma c_defaultHistoryBufferSize_ok : defaultHistoryBufferSize = 10000%Z. Proof.
 Lemma batch_fits_history : (maxSyncRegionBatchSize <= defaultHistoryBufferSize)%Z. Proof. discriminate. Qed.
 
 Lemma skel_hb_Record_ok : skel_hb_Record =
-  [Lock "h"; DeferUnlock "h"; Assign "h.tail" "= (h.tail + 1) % h.size"; IfE "h.tail == h.head" [Assign "h.head" "= (h.head + 1) % h.size"] []; Assign "h.index" "++"; Assign "h.flushCount" "--"; IfE "h.flushCount <= 0" [Call "persist"; Assign "h.flushCount" "= defaultFlushCount"] []].
+  [Lock "v0"; DeferUnlock "v0"; Assign "v0.tail" "= (v0.tail + 1) % v0.size"; IfE "v0.tail == v0.head" [Assign "v0.head" "= (v0.head + 1) % v0.size"] []; Assign "v0.index" "++"; Assign "v0.flushCount" "--"; IfE "v0.flushCount <= 0" [Call "persist"; Assign "v0.flushCount" "= defaultFlushCount"] []].
 Proof. reflexivity. Qed.
 
 Lemma skel_hb_RecordsFrom_ok : skel_hb_RecordsFrom =
-  [RLock "h"; DeferRUnlock "h"; Call "nextIndex"; Call "firstIndex"; IfE "index < h.nextIndex() && index >= h.firstIndex()" [Call "firstIndex"; Assign "pos" "= (h.head + int(index-h.firstIndex())) % h.size"] [Ret]; Call "distanceToTail"; Assign "records" ":= make([]*core.RegionInfo, 0, h.distanceToTail(pos))"; Assign "i" ":= pos"; ForE [Assign "records" "= append(records, h.records[i])"; Assign "i" "= (i + 1) % h.size"]; Ret].
+  [RLock "v0"; DeferRUnlock "v0"; Call "nextIndex"; Call "firstIndex"; IfE "v1 < v0.nextIndex() && v1 >= v0.firstIndex()" [Call "firstIndex"; Assign "v2" "= (v0.head + int(v1-v0.firstIndex())) % v0.size"] [Ret]; Call "distanceToTail"; Assign "v3" ":= make([]*core.RegionInfo, 0, v0.distanceToTail(v2))"; Assign "v4" ":= v2"; ForE [Assign "v3" "= append(v3, v0.records[v4])"; Assign "v4" "= (v4 + 1) % v0.size"]; Ret].
 Proof. reflexivity. Qed.
 
 Lemma skel_hb_ResetWithIndex_ok : skel_hb_ResetWithIndex =
-  [Lock "h"; DeferUnlock "h"; Assign "h.index" "= index"; Assign "h.head" "= 0"; Assign "h.tail" "= 0"; Assign "h.flushCount" "= defaultFlushCount"; Call "persist"].
+  [Lock "v0"; DeferUnlock "v0"; Assign "v0.index" "= v1"; Assign "v0.head" "= 0"; Assign "v0.tail" "= 0"; Assign "v0.flushCount" "= defaultFlushCount"; Call "persist"].
 Proof. reflexivity. Qed.
 
 Lemma skel_hb_GetNextIndex_ok : skel_hb_GetNextIndex =
-  [RLock "h"; DeferRUnlock "h"; Ret].
+  [RLock "v0"; DeferRUnlock "v0"; Ret].
 Proof. reflexivity. Qed.
 
 Lemma skel_hb_reload_ok : skel_hb_reload =
-  [Call "Load"; IfE "v != """"" [Call "ParseUint"; Assign "h.index" "= strconv.ParseUint(v, 10, 64)"] []; Call "firstIndex"].
+  [Call "Load"; Assign "v1" ":= v0.kv.Load(historyKey)"; Assign "v2" ":= v0.kv.Load(historyKey)"; IfE "v1 != """"" [Call "ParseUint"; Assign "v0.index" "= strconv.ParseUint(v1, 10, 64)"; Assign "v2" "= strconv.ParseUint(v1, 10, 64)"] []].
 Proof. reflexivity. Qed.
 
 Lemma skel_hb_persist_ok : skel_hb_persist =
-  [Call "firstIndex"; Call "nextIndex"; Call "nextIndex"; Call "FormatUint"; Call "Save"; IfE "err != nil" [Call "nextIndex"] []].
+  [Call "nextIndex"; Call "FormatUint"; Call "Save"; Assign "v1" ":= v0.kv.Save(historyKey, strconv.FormatUint(v0.nextIndex(), 10))"].
 Proof. reflexivity. Qed.
 
 Lemma skel_hb_distanceToTail_ok : skel_hb_distanceToTail =
-  [IfE "h.tail < pos" [Ret] []; Ret].
+  [IfE "v0.tail < v1" [Ret] []; Ret].
 Proof. reflexivity. Qed.
 
 Lemma skel_hb_firstIndex_ok : skel_hb_firstIndex =
@@ -53,55 +53,55 @@ Lemma skel_hb_len_ok : skel_hb_len =
 Proof. reflexivity. Qed.
 
 Lemma skel_newHistoryBuffer_ok : skel_newHistoryBuffer =
-  [Assign "size" "++"; IfE "size < 2" [Assign "size" "= 2"] []; Assign "records" ":= make([]*core.RegionInfo, size)"; Call "reload"; Ret].
+  [Assign "v0" "++"; IfE "v0 < 2" [Assign "v0" "= 2"] []; Assign "v2" ":= make([]*core.RegionInfo, v0)"; Assign "v3" ":= &historyBuffer{ v2: v2, v0: v0, v1: v1, flushCount: defaultFlushCount, }"; Call "reload"; Ret].
 Proof. reflexivity. Qed.
 
 Lemma ret_hb_distanceToTail_ok : ret_hb_distanceToTail =
-  ["h.tail + h.size - pos"; "h.tail - pos"].
+  ["v0.tail + v0.size - v1"; "v0.tail - v1"].
 Proof. reflexivity. Qed.
 
 Lemma ret_hb_firstIndex_ok : ret_hb_firstIndex =
-  ["h.index - uint64(h.len())"].
+  ["v0.index - uint64(v0.len())"].
 Proof. reflexivity. Qed.
 
 Lemma records_from_loop_ok : records_from_loop =
-  ["i := pos"; "i != h.tail"; "i = (i + 1) % h.size"; "records = append(records, h.records[i])"].
+  ["v4 := v2"; "v4 != v0.tail"; "v4 = (v4 + 1) % v0.size"; "v3 = append(v3, v0.records[v4])"].
 Proof. reflexivity. Qed.
 
 Lemma skel_syncHistoryRegion_ok : skel_syncHistoryRegion =
-  [Assign "startIndex" ":= request.GetStartIndex()"; Call "RecordsFrom"; Assign "records" ":= s.history.RecordsFrom(startIndex)"; IfE "len(records) == 0" [Call "GetNextIndex"; IfE "s.history.GetNextIndex() == startIndex" [Ret] []; IfE "startIndex == 0" [Call "GetRegions"; Assign "regions" ":= s.server.GetRegions()"; Assign "lastIndex" ":= 0"; Assign "metas" ":= make([]*metapb.Region, 0, maxSyncRegionBatchSize)"; Assign "stats" ":= make([]*pdpb.RegionStat, 0, maxSyncRegionBatchSize)"; Assign "leaders" ":= make([]*metapb.Peer, 0, maxSyncRegionBatchSize)"; ForE [Assign "metas" "= append(metas, r.GetMeta())"; Assign "stats" "= append(stats, r.GetStat())"; Assign "leader" ":= &metapb.Peer{}"; IfE "r.GetLeader() != nil" [Assign "leader" "= r.GetLeader()"] []; Assign "leaders" "= append(leaders, leader)"; Assign "lastIndex" "+= len(metas)"; Call "Send"; Assign "metas" "= metas[:0]"; Assign "stats" "= stats[:0]"; Assign "leaders" "= leaders[:0]"]; Ret] []; Ret] []; Call "GetNextIndex"; Assign "regions" ":= make([]*metapb.Region, len(records))"; Assign "stats" ":= make([]*pdpb.RegionStat, len(records))"; Assign "leaders" ":= make([]*metapb.Peer, len(records))"; ForE [Assign "leader" ":= &metapb.Peer{}"; IfE "r.GetLeader() != nil" [Assign "leader" "= r.GetLeader()"] []]; Call "Send"; Ret].
+  [Assign "v3" ":= v1.GetStartIndex()"; Assign "v4" ":= v1.GetMember().GetName()"; Call "RecordsFrom"; Assign "v5" ":= v0.history.RecordsFrom(v3)"; IfE "len(v5) == 0" [Call "GetNextIndex"; IfE "v0.history.GetNextIndex() == v3" [Ret] []; IfE "v3 == 0" [Call "GetRegions"; Assign "v6" ":= v0.server.GetRegions()"; Assign "v7" ":= 0"; Assign "v8" ":= time.Now()"; Assign "v9" ":= make([]*metapb.Region, 0, maxSyncRegionBatchSize)"; Assign "v10" ":= make([]*pdpb.RegionStat, 0, maxSyncRegionBatchSize)"; Assign "v11" ":= make([]*metapb.Peer, 0, maxSyncRegionBatchSize)"; ForE [Assign "v9" "= append(v9, v13.GetMeta())"; Assign "v10" "= append(v10, v13.GetStat())"; Assign "v14" ":= &metapb.Peer{}"; IfE "v13.GetLeader() != nil" [Assign "v14" "= v13.GetLeader()"] []; Assign "v11" "= append(v11, v14)"; Assign "v15" ":= &pdpb.SyncRegionResponse{ Header: &pdpb.ResponseHeader{ClusterId: v0.server.ClusterID()}, Regions: v9, StartIndex: uint64(v7), RegionStats: v10, RegionLeaders: v11, }"; Assign "v7" "+= len(v9)"; Call "Send"; Assign "v16" ":= v2.Send(v15)"; Assign "v9" "= v9[:0]"; Assign "v10" "= v10[:0]"; Assign "v11" "= v11[:0]"]; Ret] []; Ret] []; Assign "v17" ":= make([]*metapb.Region, len(v5))"; Assign "v18" ":= make([]*pdpb.RegionStat, len(v5))"; Assign "v19" ":= make([]*metapb.Peer, len(v5))"; ForE [Assign "v22" ":= &metapb.Peer{}"; IfE "v21.GetLeader() != nil" [Assign "v22" "= v21.GetLeader()"] []]; Assign "v23" ":= &pdpb.SyncRegionResponse{ Header: &pdpb.ResponseHeader{ClusterId: v0.server.ClusterID()}, Regions: v17, StartIndex: v3, RegionStats: v18, RegionLeaders: v19, }"; Call "Send"; Ret].
 Proof. reflexivity. Qed.
 
 Lemma skel_RunServer_ok : skel_RunServer =
-  [ForE [SwitchE [[Ret]; [Assign "requests" "= append(requests, first.GetMeta())"; Assign "stats" ":= append(stats, first.GetStat())"; Assign "leaders" ":= append(leaders, first.GetLeader())"; Call "GetNextIndex"; Assign "startIndex" ":= s.history.GetNextIndex()"; Call "Record"; ForE [Assign "requests" "= append(requests, region.GetMeta())"; Assign "stats" "= append(stats, region.GetStat())"; Assign "leaders" "= append(leaders, region.GetLeader())"; Call "Record"]; Assign "regions" ":= &pdpb.SyncRegionResponse{ Header: &pdpb.ResponseHeader{ClusterId: s.server.ClusterID()}, Regions: requests, StartIndex: startIndex, RegionStats: stats, RegionLeaders: leaders, }"; Call "broadcast"]; [Call "GetNextIndex"; Call "broadcast"]]; Assign "requests" "= requests[:0]"]].
+  [Assign "v6" ":= time.NewTicker(syncerKeepAliveInterval)"; ForE [SwitchE [[Ret]; [Assign "v7" ":= <-v1"; Assign "v3" "= append(v3, v7.GetMeta())"; Assign "v8" ":= append(v4, v7.GetStat())"; Assign "v9" ":= append(v5, v7.GetLeader())"; Call "GetNextIndex"; Assign "v10" ":= v0.history.GetNextIndex()"; Call "Record"; Assign "v11" ":= len(v1)"; Assign "v12" ":= 0"; ForE [Assign "v13" ":= <-v1"; Assign "v3" "= append(v3, v13.GetMeta())"; Assign "v8" "= append(v8, v13.GetStat())"; Assign "v9" "= append(v9, v13.GetLeader())"; Call "Record"; Assign "v12" "++"]; Assign "v14" ":= &pdpb.SyncRegionResponse{ Header: &pdpb.ResponseHeader{ClusterId: v0.server.ClusterID()}, Regions: v3, StartIndex: v10, RegionStats: v8, RegionLeaders: v9, }"; Call "broadcast"]; [Call "GetNextIndex"; Assign "v15" ":= &pdpb.SyncRegionResponse{ Header: &pdpb.ResponseHeader{ClusterId: v0.server.ClusterID()}, StartIndex: v0.history.GetNextIndex(), }"; Call "broadcast"]]; Assign "v3" "= v3[:0]"]].
 Proof. reflexivity. Qed.
 
 Lemma skel_Sync_ok : skel_Sync =
-  [ForE [IfE "err == io.EOF" [Ret] []; IfE "err != nil" [Ret] []; IfE "clusterID != s.server.ClusterID()" [Ret] []; Call "syncHistoryRegion"; IfE "err != nil" [Ret] []; Call "bindStream"]].
+  [ForE [Assign "v2" ":= v1.Recv()"; Assign "v3" ":= v1.Recv()"; IfE "v3 == io.EOF" [Ret] []; IfE "v3 != nil" [Ret] []; Assign "v4" ":= v2.GetHeader().GetClusterId()"; IfE "v4 != v0.server.ClusterID()" [Ret] []; Call "syncHistoryRegion"; Assign "v3" "= v0.syncHistoryRegion(v2, v1)"; IfE "v3 != nil" [Ret] []; Call "bindStream"]].
 Proof. reflexivity. Qed.
 
 Lemma full_sync_appended_ok : full_sync_appended =
-  ["metas"; "stats"; "leaders"].
+  ["Regions"; "RegionStats"; "RegionLeaders"].
 Proof. reflexivity. Qed.
 
 Lemma full_sync_truncated_ok : full_sync_truncated =
-  ["metas"; "stats"; "leaders"].
+  ["Regions"; "RegionStats"; "RegionLeaders"].
 Proof. reflexivity. Qed.
 
 Lemma full_sync_fields_ok : full_sync_fields =
-  ["Regions = metas"; "StartIndex = uint64(lastIndex)"; "RegionStats = stats"; "RegionLeaders = leaders"].
+  ["Regions = v9"; "StartIndex = uint64(v7)"; "RegionStats = v10"; "RegionLeaders = v11"].
 Proof. reflexivity. Qed.
 
 Lemma full_sync_continue_cond_ok : full_sync_continue_cond =
-  ["len(metas) < maxSyncRegionBatchSize && syncedIndex < len(regions)-1"].
+  ["len(v9) < maxSyncRegionBatchSize && v12 < len(v6)-1"].
 Proof. reflexivity. Qed.
 
 Lemma full_sync_range_ok : full_sync_range =
-  ["syncedIndex"; "r"; "regions"].
+  ["v12"; "v13"; "v6"].
 Proof. reflexivity. Qed.
 
 Lemma skel_StartSyncWithLeader_ok : skel_StartSyncWithLeader =
-  [RLock "s.mu"; RUnlock "s.mu"; GoE [Call "LoadRegionsOnce"; Assign "err" ":= s.server.GetStorage().LoadRegionsOnce(s.server.GetBasicCluster().CheckAndPutRegion)"; ForE [SwitchE [[Ret]; []]; Assign "err" "= s.establish(addr)"]; ForE [SwitchE [[Ret]; []]; Assign "err" ":= s.syncRegion(conn)"; IfE "err != nil" [IfE "ok" [IfE "ev.Code() == codes.Canceled" [Ret] []] []] []; Call "GetNextIndex"; ForE [Call "Recv"; Assign "err" ":= stream.Recv()"; IfE "err != nil" [Assign "err" "= stream.CloseSend()"] []; Call "GetNextIndex"; Call "GetStartIndex"; IfE "s.history.GetNextIndex() != resp.GetStartIndex()" [Call "GetNextIndex"; Call "GetStartIndex"; Call "GetRegions"; Call "GetStartIndex"; Call "ResetWithIndex"] []; Call "GetRegionStats"; Assign "stats" ":= resp.GetRegionStats()"; Call "GetRegions"; Assign "regions" ":= resp.GetRegions()"; Call "GetRegionLeaders"; Assign "regionLeaders" ":= resp.GetRegionLeaders()"; Assign "hasStats" ":= len(stats) == len(regions)"; ForE [IfE "len(regionLeaders) > i && regionLeaders[i].Id != 0" [Assign "regionLeader" "= regionLeaders[i]"] []; IfE "hasStats" [Call "NewRegionInfo"; Assign "region" "= core.NewRegionInfo(r, regionLeader, core.SetWrittenBytes(stats[i].BytesWritten), core.SetWrittenKeys(stats[i].KeysWritten), core.SetReadBytes(stats[i].BytesRead), core.SetReadKeys(stats[i].KeysRead), )"] [Call "NewRegionInfo"; Assign "region" "= core.NewRegionInfo(r, regionLeader)"]; Call "CheckAndPutRegion"; Call "SaveRegion"; Assign "err" "= s.server.GetStorage().SaveRegion(r)"; IfE "err == nil" [Call "Record"] []]]]]].
+  [RLock "v0.mu"; Assign "v2" ":= v0.mu.closed"; RUnlock "v0.mu"; GoE [Call "LoadRegionsOnce"; Assign "v3" ":= v0.server.GetStorage().LoadRegionsOnce(v0.server.GetBasicCluster().CheckAndPutRegion)"; ForE [SwitchE [[Ret]; []]; Assign "v4" "= v0.establish(v1)"; Assign "v3" "= v0.establish(v1)"]; ForE [SwitchE [[Ret]; []]; Assign "v5" ":= v0.syncRegion(v4)"; Assign "v6" ":= v0.syncRegion(v4)"; IfE "v6 != nil" [Assign "v7" ":= status.FromError(v6)"; Assign "v8" ":= status.FromError(v6)"; IfE "v8" [IfE "v7.Code() == codes.Canceled" [Ret] []] []] []; ForE [Call "Recv"; Assign "v9" ":= v5.Recv()"; Assign "v10" ":= v5.Recv()"; IfE "v10 != nil" [Assign "v10" "= v5.CloseSend()"] []; Call "GetNextIndex"; Call "GetStartIndex"; IfE "v0.history.GetNextIndex() != v9.GetStartIndex()" [Call "GetStartIndex"; Call "ResetWithIndex"] []; Call "GetRegionStats"; Assign "v11" ":= v9.GetRegionStats()"; Call "GetRegions"; Assign "v12" ":= v9.GetRegions()"; Call "GetRegionLeaders"; Assign "v13" ":= v9.GetRegionLeaders()"; Assign "v14" ":= len(v11) == len(v12)"; ForE [IfE "len(v13) > v15 && v13[v15].Id != 0" [Assign "v18" "= v13[v15]"] []; IfE "v14" [Call "NewRegionInfo"; Assign "v17" "= core.NewRegionInfo(v16, v18, core.SetWrittenBytes(v11[v15].BytesWritten), core.SetWrittenKeys(v11[v15].KeysWritten), core.SetReadBytes(v11[v15].BytesRead), core.SetReadKeys(v11[v15].KeysRead), )"] [Call "NewRegionInfo"; Assign "v17" "= core.NewRegionInfo(v16, v18)"]; Call "CheckAndPutRegion"; Call "SaveRegion"; Assign "v10" "= v0.server.GetStorage().SaveRegion(v16)"; IfE "v10 == nil" [Call "Record"] []]]]]].
 Proof. reflexivity. Qed.
 
 
